@@ -84,6 +84,9 @@ type Options struct {
 	NoBlank     bool
 	NoAliases   bool
 	NoGuessTrap bool // avoid packages whose name cannot be guessed from the path and vendor paths
+	UseAll      bool // reference every non-blank import at least once (a compilable file has no unused import)
+	NoVendor    bool // never import through a vendor path (dst rewrites those by design)
+	PkgName     string
 }
 
 var exported = []string{"Foo", "Bar", "New", "Client", "Reader", "Writer", "Print", "Open", "Do", "T", "Err", "Max"}
@@ -231,6 +234,9 @@ func Source(t *tape.Tape, opt Options) Spec {
 	}
 	g := &g{t: t}
 	sp := Spec{PkgName: []string{"main", "p", "lib"}[t.Draw(3)]}
+	if opt.PkgName != "" {
+		sp.PkgName = opt.PkgName
+	}
 
 	nimp := t.Draw(opt.MaxImports + 1)
 	used := map[string]bool{}
@@ -249,6 +255,9 @@ func Source(t *tape.Tape, opt Options) Spec {
 			case "github.com/foo/bar-go", "gopkg.in/yaml.v2", "f.dev/v2", "root/vendor/g.com/vend":
 				p = Pool[t.Draw(12)]
 			}
+		}
+		if opt.NoVendor && strings.Contains(p.Path, "vendor/") {
+			p = Pool[t.Draw(12)]
 		}
 		if used[p.Path] {
 			nimp--
@@ -273,7 +282,7 @@ func Source(t *tape.Tape, opt Options) Spec {
 					delete(used, p.Path)
 					continue
 				}
-				im.Alias = fmt.Sprintf("%s%d", p.Name, len(sp.Imports))
+				im.Alias = fmt.Sprintf("%sq%d", p.Name, len(sp.Imports)) // never collides with a generated declaration name
 			}
 			names[im.LocalName()] = true
 			g.usable = append(g.usable, im)
@@ -338,6 +347,13 @@ func Source(t *tape.Tape, opt Options) Spec {
 	for i := 0; i < nd; i++ {
 		sb.WriteString(g.decl())
 		sb.WriteString("\n\n")
+	}
+	if opt.UseAll && len(g.usable) > 0 {
+		sb.WriteString("var (\n")
+		for _, im := range g.usable {
+			fmt.Fprintf(sb, "_ = %s.%s\n", im.LocalName(), g.pick(exported))
+		}
+		sb.WriteString(")\n\n")
 	}
 	if t.Bool(1, 6) {
 		sb.WriteString("// trailing comment\n")
